@@ -535,6 +535,122 @@ func c04ConfigPath(ctx *Ctx, idx int) {
 	}
 }
 
+// c04NarrowRangeLimit: hwmon fans with a configured range narrower than 0..255 and a per-cycle limit, built the way
+// the daemon builds them (configuration file, loader, hwmon detection on a fake tree, initializeFanControllers). The
+// curve jumps from its lowest to its highest value and back: no two consecutive requests differ by more than the
+// limit, and the request arrives at the fan's maximum / minimum.
+func c04NarrowRangeLimit(ctx *Ctx, idx int) {
+	r := ctx.Rng
+	dir := ctx.Path(fmt.Sprintf("c04narrow-%d", idx))
+	_ = os.MkdirAll(dir, 0755)
+	defer os.RemoveAll(dir)
+	root := filepath.Join(dir, "hwmon")
+	t := &c17Tree{Chips: []c17Chip{{Dir: "hwmon0", Name: "nct6798", Fans: []int{1, 2, 3, 4}, Temps: []int{1}}}, Order: []string{"hwmon0"}}
+	t.materialise(root)
+	oldRoot, hadRoot := os.LookupEnv("FAN2GO_VERIF_HWMON_ROOT")
+	_ = os.Setenv("FAN2GO_VERIF_HWMON_ROOT", root)
+	defer func() {
+		if hadRoot {
+			_ = os.Setenv("FAN2GO_VERIF_HWMON_ROOT", oldRoot)
+		} else {
+			_ = os.Unsetenv("FAN2GO_VERIF_HWMON_ROOT")
+		}
+	}()
+	pfx := fmt.Sprintf("c04n%dn%d-", ctx.Batch, idx)
+	type nf struct{ min, max, limit int }
+	var fansCfg []nf
+	for k := 0; k < 4; k++ {
+		mx := pick(r, 100, 200, 150, 60+r.Intn(190))
+		mn := 0
+		if r.Intn(2) == 0 {
+			mn = r.Intn(mx / 2)
+		}
+		fansCfg = append(fansCfg, nf{mn, mx, pick(r, 1, 2, 3, 5, 10, 1+r.Intn(20))})
+	}
+	var sb strings.Builder
+	sensorFile := filepath.Join(dir, "sensor")
+	_ = os.WriteFile(sensorFile, []byte("0\n"), 0644)
+	fmt.Fprintf(&sb, "dbPath: %s/fan2go.db\nsensors:\n  - id: %ss\n    file:\n      path: %s\ncurves:\n  - id: %sc\n    linear:\n      sensor: %ss\n      min: 0\n      max: 100\nfans:\n", dir, pfx, sensorFile, pfx, pfx)
+	for k, f := range fansCfg {
+		fmt.Fprintf(&sb, "  - id: %sf%d\n    hwmon:\n      platform: nct6798\n      rpmChannel: %d\n    curve: %sc\n    maxPwm: %d\n", pfx, k, k+1, pfx, f.max)
+		if f.min > 0 {
+			fmt.Fprintf(&sb, "    neverStop: true\n    minPwm: %d\n", f.min)
+		}
+		fmt.Fprintf(&sb, "    controlAlgorithm:\n      direct:\n        maxPwmChangePerCycle: %d\n", f.limit)
+	}
+	cfgPath := filepath.Join(dir, "fan2go.yaml")
+	_ = os.WriteFile(cfgPath, []byte(sb.String()), 0644)
+	viper.Reset()
+	configuration.InitConfig(cfgPath)
+	if err := viper.ReadInConfig(); err != nil {
+		ctx.Inconclusive("C04 narrow range: " + err.Error())
+		return
+	}
+	configuration.LoadConfig()
+	if err := configuration.Validate(cfgPath); err != nil {
+		ctx.Violation("narrow-range:documented-configuration-rejected", err.Error(), sb.String())
+		return
+	}
+	reg := prometheus.NewRegistry()
+	prometheus.DefaultRegisterer, prometheus.DefaultGatherer = reg, reg
+	installClock()
+	clockAutoTick = 0
+	fanMap, err := internal.InitializeObjects()
+	if err != nil {
+		ctx.Inconclusive("C04 narrow range: " + err.Error())
+		return
+	}
+	ctrls, err := internal.VerifInitializeFanControllers(newMemPersistence(), fanMap)
+	if err != nil {
+		ctx.Inconclusive("C04 narrow range: " + err.Error())
+		return
+	}
+	sensor, _ := sensors.GetSensor(pfx + "s")
+	for k, f := range fansCfg {
+		var ctrl *controller.DefaultFanController
+		for fan, c := range ctrls {
+			if fan.GetId() == fmt.Sprintf("%sf%d", pfx, k) {
+				ctrl = c.(*controller.DefaultFanController)
+			}
+		}
+		if ctrl == nil {
+			ctx.Inconclusive("C04 narrow range: controller missing")
+			return
+		}
+		ctrl.VerifSetPwmMap(identityMap())
+		desc := map[string]interface{}{"kind": "narrow-range", "min": f.min, "max": f.max, "maxPwmChangePerCycle": f.limit}
+		ctx.SampleKind("narrow-range", desc)
+		var last int
+		for phase, temp := range []float64{0, 100000, 0} {
+			sensor.SetMovingAvg(temp)
+			for c := 0; c < 255/f.limit+4; c++ {
+				advance(200 * time.Millisecond)
+				ctrl.VerifMeasureRpm() // (the tachometer file says the fan spins)
+				prev, had := ctrl.VerifLastSetPwm()
+				if e := ctrl.UpdateFanSpeed(); e != nil {
+					ctx.Violation("narrow-range:error", e.Error(), sb.String())
+					return
+				}
+				last, _ = ctrl.VerifLastSetPwm()
+				ctx.Eval(1)
+				if had && phase > 0 && (last-prev > f.limit || prev-last > f.limit) {
+					ctx.Violation("narrow-range:step-exceeds-maxPwmChangePerCycle", fmt.Sprintf("%v: request %d -> %d in one cycle", desc, prev, last), desc)
+					return
+				}
+			}
+			want := f.min
+			if phase == 1 {
+				want = f.max
+			}
+			if last != want {
+				ctx.Violation("narrow-range:steady-value-is-not-the-fan-limit", fmt.Sprintf("%v: phase %d settles at %d, expected %d", desc, phase, last, want), desc)
+				return
+			}
+		}
+		ctx.Nontrivial(fmt.Sprintf("narrow-range|%d|%d|%d", f.min, f.max, f.limit))
+	}
+}
+
 // c04SeveralFans: several fans of one configuration that all rely on the same (default or explicit) algorithm form,
 // each on its own curve and starting PWM, ticking at (almost) the same moment as the daemon's tickers do. Every fan must
 // settle at its own steady value exactly as it does alone.
@@ -847,6 +963,7 @@ func init() {
 			}
 			c04Pid(ctx, cfg, r, nPid)
 			c04DirectAfterHistory(ctx, cfg, m, r, nPid*4)
+			c04NarrowRangeLimit(ctx, i)
 			c04ConfigPath(ctx, i)
 			c04StoppingFan(ctx, cfg, r)
 			c04RealFanLimits(ctx, r)
